@@ -46,17 +46,30 @@ def le_guard(key, bound, name):
 
 
 def run(prog, chk):
+    buffer_tables(prog, chk)
+    _run(prog, chk)
+
+
+def _run(prog, chk):
     chk.explanation = (
         "(R10) every store of the high byte of a 16-bit length taken from a size_t is dominated by the exiting edge of a check "
         "'length <= 0xffff' (tree serializer tlv.c and element serializer tlv_element.c); constant-index reads of the raw readers "
         "(parseHdr, KSI_FTLV_memRead, readData) are dominated by a sufficient length check; the short (2-byte) header form is chosen "
         "only under length <= 0xff and tag <= 0x1f. (R1) exact tiling: parseBlob2 accepts only when the consumed bytes equal the input "
         "length; nested expansion stores its list only when the children tile the payload; memRead returns OK only when header plus "
-        "payload fit; readData reads the payload only after the buffer check.")
-    chk.not_decided = ["round-trip equality of trees", "behaviour for every output-buffer size"]
+        "payload fit; readData reads the payload only after the buffer check. "
+        "(R6 over abstract buffers) serializeTlv, KSI_TLV_writeBytes (nested element, with and without the move to the front) and "
+        "KSI_TlvElement_serialize are evaluated abstractly with the output buffer modelled as an object with integer offsets, for the "
+        "boundary classes of the statement: payload length 0 / 3 / 255 / 256 / 65535 / 65536, tag 1 / 0x1f / 0x20 / 0x1fff, both flags, "
+        "header / no header, size query (no buffer), and buffer sizes from 3 bytes short to 1 byte spare around header + payload. "
+        "Unsigned arithmetic wraps as in C (the extractor records the result type of every arithmetic operator and every implicit "
+        "integer conversion). Required: no store and no memcpy / memmove range outside [0, size); a buffer shorter than the encoding "
+        "gives an error; a sufficient one gives KSI_OK, the exact length, and header bytes equal to the reference encoding "
+        "(2-byte form iff tag <= 0x1f and length <= 0xff); a payload above 0xffff is refused.")
+    chk.not_decided = ["round-trip equality of arbitrary trees (payload bytes are opaque to the evaluation)",
+                       "buffer sizes and lengths between the boundary classes evaluated (the code has no other constants in its comparisons)"]
     chk.rule("C09.len16", "16-bit length field is written only under length <= 0xffff", floor=2)
     chk.rule("C09.readers", "raw readers check the length before dereferencing", floor=3)
-    chk.rule("C09.hdrform", "2-byte header only when length <= 0xff and tag <= 0x1f", floor=4)
     chk.rule("C09.tiling", "declared lengths must tile the input exactly", floor=6)
 
     # ------------------------------------------------------------------ 16-bit length stores
@@ -88,33 +101,8 @@ def run(prog, chk):
             chk.ob("C09.readers", name, True, "every constant-index read of %s is behind a sufficient check of %s" % (ptr, ln), loc=fn.loc(), fn=fn)
 
     # ------------------------------------------------------------------ header form
-    fs = prog.fn("serializeTlv", "tlv.c")
-    tlvp = fs.params[0]["n"]
-    lenk = [lvalue_key(strip(n["a"][3])["e"], fs) for b, i, n in fs.calls("serializePayload")]
-    if len(lenk) != 1:
-        raise AnalysisBroken("serializeTlv: payload length variable not found")
-    lenk = lenk[0]
-    two = [(b, i) for b, i, n in fs.nodes() if n.get("k") == "asg" and lvalue_key(n["l"], fs) == "hdr_len" and is_int(fs.resolve(strip(n["r"])), 2)]
-    four = [(b, i) for b, i, n in fs.nodes() if n.get("k") == "asg" and lvalue_key(n["l"], fs) == "hdr_len" and is_int(fs.resolve(strip(n["r"])), 4)]
-    if not two or not four:
-        raise AnalysisBroken("serializeTlv: header length assignments not found")
-    for key, bound in ((lenk, 0xff), (tlvp + "->tag", 0x1f)):
-        w = must_pass(fs, {b for b, i in two}, le_guard(key, bound, "%s<=%#x" % (key, bound)))
-        chk.ob("C09.hdrform", "serializeTlv:short<=%s" % key, w is None,
-               "the 2-byte header is chosen only when %s <= %#x" % (key, bound), loc=fs.loc(fs.elem_line(*two[0])), fn=fs,
-               path=None if w is None else path_lines(fs, w))
-    fe = prog.fn("KSI_TlvElement_serialize", "tlv_element.c")
-    # HDR_LEN(tag, dat_len) = (tag > 0x1f || dat_len > 0xff) ? 4 : 2 ; the arm holding the literal 2
-    arms = [(b, i) for b, i, el in fe.elems() if is_int(el["e"], 2) and "HDR_LEN" in (el.get("mac") or [])]
-    if not arms:
-        raise AnalysisBroken("KSI_TlvElement_serialize: HDR_LEN conditional not found")
-    for key, bound in (("dat_len", 0xff), ("element->ftlv.tag", 0x1f)):
-        key2 = key if key == "dat_len" else fe.params[0]["n"] + "->ftlv.tag"
-        w = must_pass(fe, {b for b, i in arms}, le_guard(key2, bound, "%s<=%#x" % (key2, bound)))
-        chk.ob("C09.hdrform", "TlvElement_serialize:short<=%s" % key2, w is None,
-               "the 2-byte header is chosen only when %s <= %#x" % (key2, bound), loc=fe.loc(fe.elem_line(*arms[0])), fn=fe,
-               path=None if w is None else path_lines(fe, w))
-
+    # decided by the buffer tables (C09.wbound): the header bytes written for tags 0x1f / 0x20 and lengths 255 / 256 are compared
+    # with the reference encoding for both codecs, so the rule does not depend on how the source spells the choice
     # ------------------------------------------------------------------ tiling
     fp = prog.fn("KSI_TLV_parseBlob2", "tlv.c")
     dl, outp = fp.params[2]["n"], fp.params[4]["n"]
@@ -174,3 +162,131 @@ def run(prog, chk):
     w = must_pass(fd, {b for b, i, n in second}, length_guard(lenp, 4))
     chk.ob("C09.tiling", "readData:long-header-fits", w is None, "bytes 2..3 of a long header are read only when the buffer has 4 bytes",
            loc=fd.loc(fd.elem_line(second[0][0], second[0][1])), fn=fd, path=None if w is None else path_lines(fd, w))
+
+
+# ---------------------------------------------------------------------- output buffer bounds and header bytes (R6 over abstract buffers)
+def ref_header(tag, L, nc, fwd):
+    if L > 0xff or tag > 0x1f:
+        return [0x80 | (0x40 if nc else 0) | (0x20 if fwd else 0) | (tag >> 8), tag & 0xff, (L >> 8) & 0xff, L & 0xff]
+    return [(0x40 if nc else 0) | (0x20 if fwd else 0) | tag, L]
+
+
+def buffer_tables(prog, chk):
+    from ksirules.bufinterp import BufInterp, block_ranges
+    from ksirules.interp import Ptr, inline_model, list_overrides, succeed_model
+    chk.rule("C09.wbound", "serializers: every byte written lies inside the caller's buffer; a buffer smaller than header + payload is refused; "
+                           "the header bytes written are the reference encoding", floor=150)
+    NOHDR = prog.const("KSI_TLV_OPT_NO_HEADER") if "KSI_TLV_OPT_NO_HEADER" in prog.enum_consts else 1
+    NOMOVE = prog.const("KSI_TLV_OPT_NO_MOVE") if "KSI_TLV_OPT_NO_MOVE" in prog.enum_consts else 2
+
+    def judge(inst, fn, I, paths, B, need, hdr, L, expect_refusal_allowed=False, moved=False, has_buf=True, outkey=None):
+        chk.paths += len(paths)
+        if len(paths) != 1 or paths[0].undetermined:
+            raise AnalysisBroken("%s: evaluation not determined for %s: %s" % (fn.name, inst, [q.undetermined[:1] for q in paths]))
+        q = paths[0]
+        stores = I.buffer_stores(q)
+        blocks = block_ranges(q, I)
+        oob = [(b, i) for (b, i, v, ln) in stores if b == "BUF" and not (0 <= i < B)]
+        oobb = [(c, st, n) for (c, b, st, n, ln) in blocks if b == "BUF" and isinstance(n, int) and n > 0 and not (0 <= st and st + n <= B)]
+        what = []
+        if oob or oobb:
+            what.append("WRITES OUTSIDE the %d-byte buffer: %s %s" % (B, ["BUF[%d]" % i for b, i in oob], oobb))
+        ok = not oob and not oobb
+        out = [t[2] for t in q.stores() if t[1] in (outkey or ())]
+        if not has_buf:
+            ok = ok and q.ret == 0 and not stores and not blocks and out[-1:] == [need]
+            what.append("size query: status %s, reported length %s (expected %d), stores %d" % (q.ret, out[-1:], need, len(stores)))
+        elif need is None:
+            ok = ok and q.ret != 0
+            what.append("payload does not fit the 16-bit length field: status %s (an error is required)" % q.ret)
+        elif B < need:
+            ok = ok and q.ret not in (0, None)
+            what.append("buffer of %d bytes for an encoding of %d: status %s (an error is required)" % (B, need, hex(q.ret) if isinstance(q.ret, int) else q.ret))
+        else:
+            if q.ret != 0 and expect_refusal_allowed:
+                what.append("sufficient buffer refused (status %s): tolerated, nothing written outside" % q.ret)
+            else:
+                # moved == "loop": the encoding is copied to the front byte by byte, the final content of the first bytes is
+                # compared; moved == "block": memmove(buf, buf + start, length) is required and the header is looked at in place
+                at = 0 if moved == "loop" else B - need
+                want = [(at + j, x) for j, x in enumerate(hdr)]
+                got = {}
+                for (b, i, v, ln) in stores:
+                    if b == "BUF" and at <= i < at + len(hdr):
+                        got[i] = v          # the last store wins (buf[i] = x; buf[i] |= flag)
+                hb = sorted(got.items())
+                okh = hb == want
+                if moved == "block":
+                    mv = [(I.as_off(t[2][0]), I.as_off(t[2][1]), t[2][2]) for t in q.calls("memmove")]
+                    okm = any(d is not None and sr is not None and (d.base, d.off, sr.base, sr.off, n) == ("BUF", 0, "BUF", B - need, need) for d, sr, n in mv)
+                    okh = okh and okm
+                    if not okm:
+                        what.append("the encoding is not moved to the front with memmove(buf, buf + %d, %d): %s" % (B - need, need, mv))
+                okp = L == 0 or any(b == "BUF" and st == B - L and n == L for (c, b, st, n, ln) in blocks) or moved
+                ok = ok and q.ret == 0 and okh and okp and (not outkey or out[-1:] == [need])
+                what.append("status %s, length %s (expected %d), header bytes %s (expected %s), payload block %s"
+                            % (q.ret, out[-1:], need, hb, want, [(st, n) for (c, b, st, n, ln) in blocks if b == "BUF"]))
+        chk.ob("C09.wbound", inst, ok, "; ".join(what), loc=fn.loc(), fn=fn)
+
+    # ---- tlv.c: serializeTlv over a raw element
+    fs = prog.fn("serializeTlv", "tlv.c")
+    pn = [p["n"] for p in fs.params]
+    helpers = {"serializePayload", "serializeRaw", "serializeNested", "serializeTlv"}
+    ov = {"memcpy": lambda I, p, n, a: a[0]}
+    for (L, tag, nc, fwd) in ((0, 1, 0, 0), (3, 1, 1, 0), (3, 0x1f, 0, 1), (3, 0x20, 0, 0), (255, 2, 0, 0), (255, 0x1f, 1, 1), (256, 2, 1, 1), (3, 0x1fff, 1, 0), (65535, 3, 0, 0), (65536, 3, 0, 0)):
+        for opt in (0, NOHDR):
+            hdr = [] if opt else ref_header(tag, L, nc, fwd)
+            need = None if (not opt and L > 0xffff) else L + len(hdr)
+            sizes = sorted({0, L} | ({max(0, need + d) for d in (-3, -2, -1, 0, 1)} if need is not None else {L + 4, L + 10}))
+            for B in sizes + [None]:
+                inputs = {pn[0]: Ptr("T"), pn[1]: (Ptr("BUF") if B is not None else 0), pn[2]: (B or 0), pn[3]: Ptr("OUT"), pn[4]: opt, "T->ctx": Ptr("ctx"),
+                          "T->nested": 0, "T->datap": Ptr("DATA"), "T->datap_len": L, "T->tag": tag, "T->isNonCritical": nc, "T->isForwardable": fwd}
+                I = BufInterp(fs, {"BUF": B or 0}, inputs=inputs, call_model=inline_model(prog, helpers, fallback=succeed_model(prog, ov)),
+                              on_unknown="stop", prog=prog, loop_bound=6)
+                inst = "serializeTlv[len=%d,tag=%#x,%s,buffer=%s]" % (L, tag, "no header" if opt else "header", "none" if B is None else B)
+                if B is None and need is None:
+                    continue
+                judge(inst, fs, I, I.run(), B or 0, need, hdr, L, has_buf=B is not None, outkey=("*" + pn[3],))
+
+    # ---- tlv.c: nested element with two raw children, through KSI_TLV_writeBytes (includes the move to the front)
+    fw = prog.fn("KSI_TLV_writeBytes", "tlv.c")
+    wn = [p["n"] for p in fw.params]
+    for (L0, L1, ctag) in ((1, 2, 1), (0, 0, 2), (2, 300, 0x21)):
+        h0, h1 = ref_header(ctag, L0, 0, 0), ref_header(ctag + 1, L1, 0, 0)
+        inner = len(h0) + L0 + len(h1) + L1
+        hdr = ref_header(5, inner, 0, 0)
+        need = inner + len(hdr)
+        for B in sorted({max(0, need + d) for d in (-5, -2, -1, 0, 1)} | {inner, L1, 0}):
+            for opt in (0, NOMOVE):
+                lists = {"NL": [Ptr("C0"), Ptr("C1")]}
+                length, element_at = list_overrides(lists)
+                inputs = {wn[0]: Ptr("T"), wn[1]: Ptr("BUF"), wn[2]: B, wn[3]: Ptr("OUT"), wn[4]: opt, "T->ctx": Ptr("ctx"), "T->nested": Ptr("NL"),
+                          "T->tag": 5, "T->isNonCritical": 0, "T->isForwardable": 0, "T->datap_len": 0}
+                for k, (Lk, tg) in enumerate(((L0, ctag), (L1, ctag + 1))):
+                    inputs.update({"C%d->ctx" % k: Ptr("ctx"), "C%d->nested" % k: 0, "C%d->datap" % k: Ptr("D%d" % k), "C%d->datap_len" % k: Lk,
+                                   "C%d->tag" % k: tg, "C%d->isNonCritical" % k: 0, "C%d->isForwardable" % k: 0})
+                ov2 = dict(ov)
+                ov2.update({"KSI_TLVList_length": length, "KSI_TLVList_elementAt": element_at})
+                I = BufInterp(fw, {"BUF": B}, inputs=inputs, call_model=inline_model(prog, helpers, fallback=succeed_model(prog, ov2)),
+                              on_unknown="stop", prog=prog, loop_bound=need + 4)
+                inst = "KSI_TLV_writeBytes[nested children %d+%d bytes,buffer=%d,%s]" % (L0, L1, B, "in place" if opt else "moved to front")
+                judge(inst, fw, I, I.run(), B, need, hdr, 0, moved=(None if opt else "loop"), outkey=("*" + wn[3],))
+
+    # ---- tlv_element.c: raw element
+    fe = prog.fn("KSI_TlvElement_serialize", "tlv_element.c")
+    en = [p["n"] for p in fe.params]
+    for (L, tag, nc, fwd) in ((0, 1, 0, 0), (3, 1, 1, 1), (3, 0x1f, 1, 0), (3, 0x20, 0, 0), (255, 2, 0, 1), (255, 0x1f, 0, 0), (256, 2, 0, 0), (65535, 3, 0, 0), (65536, 3, 0, 0)):
+        for opt in (0, NOHDR, NOMOVE):
+            hdr = [] if opt == NOHDR else ref_header(tag, L, nc, fwd)
+            need = None if (opt != NOHDR and L > 0xffff) else L + len(hdr)
+            sizes = sorted({0, L} | ({max(0, need + d) for d in (-3, -2, -1, 0, 1)} if need is not None else {L + 4, L + 10}))
+            for B in sizes + [None]:
+                if B is None and need is None:
+                    continue
+                inputs = {en[0]: Ptr("E"), en[1]: (Ptr("BUF") if B is not None else 0), en[2]: (B or 0), en[3]: Ptr("OUT"), en[4]: opt, "E->subList": 0,
+                          "E->ptr": Ptr("SRC"), "E->ftlv.dat_len": L, "E->ftlv.hdr_len": 2, "E->ftlv.tag": tag, "E->ftlv.is_nc": nc, "E->ftlv.is_fwd": fwd}
+                ov3 = {"memcpy": lambda I, p, n, a: a[0], "memmove": lambda I, p, n, a: a[0]}
+                I = BufInterp(fe, {"BUF": B or 0}, inputs=inputs, call_model=inline_model(prog, {"KSI_TlvElement_serialize"}, fallback=succeed_model(prog, ov3)),
+                              on_unknown="stop", prog=prog, loop_bound=6)
+                inst = "KSI_TlvElement_serialize[len=%d,tag=%#x,opt=%d,buffer=%s]" % (L, tag, opt, "none" if B is None else B)
+                judge(inst, fe, I, I.run(), B or 0, need, hdr, L, expect_refusal_allowed=True, moved=("block" if opt == 0 else None), has_buf=B is not None, outkey=("*" + en[3],))
